@@ -28,3 +28,48 @@ func VerifRunCharstring(cs []byte, local, global [][]byte) ([]ot.Segment, ps.Pat
 	f := CFF{Charstrings: [][]byte{cs}, globalSubrs: global, localSubrs: [][][]byte{local}}
 	return f.LoadGlyph(0)
 }
+
+// VerifGlyphEnv2 returns what CFF2.LoadGlyph runs the charstring of the glyph with: local and global
+// subroutines, the number of regions of every ItemVariationData (the number of blend deltas per
+// operand), whether all its region indices are valid, and the default vsindex of the font DICT.
+func (f *CFF2) VerifGlyphEnv2(glyph tables.GlyphID) (local, global [][]byte, ks []int, valid []bool, defaultVS int, err error) {
+	var index byte
+	if f.fdSelect != nil {
+		index, err = f.fdSelect.fontDictIndex(glyph)
+		if err != nil {
+			return
+		}
+	}
+	if int(index) >= len(f.fonts) {
+		return nil, nil, nil, nil, 0, errGlyph
+	}
+	for _, d := range f.VarStore.ItemVariationDatas {
+		ks = append(ks, len(d.RegionIndexes))
+		ok := true
+		for _, ri := range d.RegionIndexes {
+			if int(ri) >= len(f.VarStore.VariationRegionList.VariationRegions) {
+				ok = false
+			}
+		}
+		valid = append(valid, ok)
+	}
+	return f.fonts[index].localSubrs, f.globalSubrs, ks, valid, int(f.fonts[index].defaultVSIndex), nil
+}
+
+// VerifRunCharstring2 runs CFF2.LoadGlyph at the default coordinates on a one glyph font made of the
+// given charstring and subroutines, with a variation store whose ItemVariationData number i has
+// ks[i] regions (pointing to an existing region if valid[i], past the region list otherwise).
+func VerifRunCharstring2(cs []byte, local, global [][]byte, ks []int, valid []bool, defaultVS int) ([]ot.Segment, ps.PathBounds, error) {
+	f := CFF2{Charstrings: [][]byte{cs}, globalSubrs: global, fonts: []privateFonts{{localSubrs: local, defaultVSIndex: int32(defaultVS)}}}
+	f.VarStore.VariationRegionList.VariationRegions = make([]tables.VariationRegion, 1)
+	for i, k := range ks {
+		d := tables.ItemVariationData{RegionIndexes: make([]uint16, k)}
+		if !valid[i] {
+			for j := range d.RegionIndexes {
+				d.RegionIndexes[j] = 7
+			}
+		}
+		f.VarStore.ItemVariationDatas = append(f.VarStore.ItemVariationDatas, d)
+	}
+	return f.LoadGlyph(0, nil)
+}
